@@ -96,7 +96,8 @@ def dspacing_from_tof(
         elem_unit(tof) / sc.units.angstrom / elem_unit(Ltotal),
         copy=False,
     )
-    return 1 / as_float_type(c * Ltotal * sc.sin(two_theta / 2), tof) * tof
+    sin_theta = sc.sin(as_float_type(two_theta, tof) / 2)
+    return 1 / as_float_type(c * Ltotal * sin_theta, tof) * tof
 
 
 def _energy_constant(energy_unit: sc.Unit, tof: Variable, length: Variable):
